@@ -8,13 +8,16 @@
   KBSR/KBDR/DSR/DDR/MCR and the prompt / exception message strings as specified.  An edit of os.asm that changes
   any of these breaks a proof.
 
-  Part 2 (`Lemmas/OsRoutines`, `Lemmas/OsPuts`): the semantic contracts, for every machine state, every device
+  Part 2 (`Lemmas/OsRoutines`, `Lemmas/OsPuts`, `Lemmas/OsPutsp`): the semantic contracts, for every machine state, every device
   set and every number of unsuccessful device polls — by stepping the model's fetch-execute function through the
   checked listing (induction over the polls and, for PUTS, over the string):
     * `Rt.getc_trap`  GETC: the next keyboard byte in R0, the keyboard advanced by exactly the reads made;
     * `Rt.out_trap`   OUT/PUTC: exactly one write of R0 to DDR after the status reads, R0 preserved;
     * `Rt.puts_trap`  PUTS: exactly the words of the zero-terminated string at R0, in order;
     * `Rt.in_trap`    IN: the prompt, then the byte read, echoed, and returned in R0;
+    * `Rt.putsp_trap` PUTSP: exactly the bytes of the packed string at R0 (low byte, then high byte of each word — the
+                      high byte obtained by the eight-round shift loop, proved to compute `w >>> 8` — up to the first
+                      zero byte), in order;
     * `Rt.halt_contract`, `Rt.halt_trap`, `Rt.mcr_off_stops`  HALT: the MCR bit is cleared and the run loop stops;
   and in each case (`Rt.Returned`) control is at the instruction after the TRAP with the PSR (condition codes,
   privilege, priority), every register other than the result register, both stack pointers, the flags, the
@@ -23,13 +26,16 @@
   it), non-strict mode, the TRAP is fetched from plain memory, the supervisor-stack cells used lie in plain memory
   above the OS image, the device ports are not shadowed by internal registers, and the devices answer as named.
   `Rt.demo_getc` instantiates everything on a freshly constructed machine (non-vacuity).
-  Not proved: PUTSP's contract (its listing is checked in part 1; the contract is evaluated on the implementation
-  for every generated case by the oracle), strict mode, and interrupts arriving during a routine (C10's theorems
-  cover entry/return of one interrupt).
+  The contracts are stated for the fetch-execute function (`fetchExec`, iterated: `Rt.feN`), i.e. for a machine whose
+  device poll at the instruction boundaries reports nothing and leaves the devices unchanged; `Rt.step_quiet` shows
+  that the public `step` is exactly that function then, and C10 (`gate`, `entry`, `rti_undoes_entry`) covers a poll
+  that does take an interrupt.
+  Not proved: strict mode, and the composition with interrupts arriving during a routine.
 -/
 import Lc3V.Lemmas.C11Core
 import Lc3V.Lemmas.OsRoutines
 import Lc3V.Lemmas.OsPuts
+import Lc3V.Lemmas.OsPutsp
 namespace Lc3V.C11
 open Lc3V
 
@@ -37,6 +43,7 @@ def obligations : List Lean.Name :=
   [``getc_listing, ``putc_listing, ``puts_listing, ``in_listing, ``putsp_listing, ``halt_listing, ``default_vectors,
    ``Rt.fetchExec_plain, ``Rt.trap_step_os, ``Rt.return_from, ``Rt.newSim_osLoaded, ``Rt.newSim_mcr_mapped,
    ``Rt.getc_trap, ``Rt.out_trap, ``Rt.puts_trap, ``Rt.in_trap, ``Rt.halt_contract, ``Rt.halt_trap,
-   ``Rt.mcr_off_stops, ``Rt.demo_getc]
+   ``Rt.mcr_off_stops, ``Rt.demo_getc, ``Rt.round_k, ``Rt.eight_rounds, ``Rt.shift_loop, ``Rt.putsp_loop,
+   ``Rt.putsp_trap, ``Rt.step_quiet]
 
 end Lc3V.C11
